@@ -2,6 +2,6 @@
 (* the large hostile family of the thorough tier, apart from MC_TermParse because TLC evaluates every constant
    definition of a module when it starts *)
 EXTENDS MC_TermParse
-SigmaMid == {27, 91, 79, 77, 60, 59, 58, 48, 49, 126, 117, 65, 82, 120, 195, 169, 226, 240, 128, 255, 63, 109}
-InputsHostileThorough == (Strings(SigmaMid, 4) \cup Strings(SigmaSmall, 6)) \ {<<>>}
+SigmaMid == {27, 91, 79, 77, 60, 59, 49, 126, 117, 65, 195, 169, 255, 63}
+InputsHostileThorough == Strings(SigmaMid, 4) \ {<<>>}
 =============================================================================
